@@ -58,7 +58,7 @@ Verify(pk, h, s) == IF VerifyMode = "pairing" THEN s = Mod(pk * h) ELSE TRUE
 ------------------------------------------------------------------------------------------------------------
 (* Part 2: the case machine *)
 VARIABLES n, t,        \* the split under test: n shares, threshold t (0 before Split)
-          phase,       \* "new" | "split" | "rec" | "done"
+          phase,       \* "new" | "split" | "rec" | "done" | "replayed"
           obs          \* the last evaluated case with the model's relations
 vars == <<n, t, phase, obs>>
 
@@ -91,6 +91,19 @@ Combine(S, sub) == /\ phase \in {"split", "rec"} /\ S \in Subsets /\ sub \in Sub
                               altered |-> sub.kind # "none",      \* the substituted partial differs from the honest one
                               aggEq |-> sub.kind = "none",        \* aggregate = signature of the undivided key
                               verifies |-> sub.kind = "none"]     \* aggregate verifies under the group public key
+
+(* Replay: verification is a pure function of (public key, message, signature), independent of what was verified
+   before.  After the honest combination every signature in play (each partial under its share's public key, the
+   aggregate under the group key, the plain BLS aggregate of the partials under VerifyAggregate) is first verified
+   against the message it was made over, then THE SAME BYTES are presented for another message, then for the original
+   one again; and two signatures over two messages are verified, then each presented for the other's message. *)
+Replay == /\ phase = "done" /\ obs.kind = "combine" /\ obs.sub.kind = "none"
+          /\ phase' = "replayed" /\ UNCHANGED <<n, t>>
+          /\ obs' = [kind |-> "replay", S |-> obs.S,
+                     genuine |-> TRUE,           \* every signature verifies for the message it was made over
+                     replayVerifies |-> FALSE,   \* none of them verifies for another message afterwards
+                     crossVerifies |-> FALSE,    \* nor for the message of another, already verified, signature
+                     stillVerifies |-> TRUE]     \* and each still verifies for its own message after that
 
 ------------------------------------------------------------------------------------------------------------
 (* The link between the two parts: for a case, the points the real code is handed (ranks are ids in the model). *)
@@ -135,11 +148,21 @@ CombineThm(S, sub) ==
           \* a fresh key equal to the honest one is no substitution: take one that differs
           LET co == {c \in Polys : AllOnCurve(c, S, sub, 1, h2, IF fresh THEN Mod(F(c, sub.pos) + 1) ELSE 0)}
           IN IF fresh THEN co = {} ELSE Cardinality(co) * P = Cardinality(Polys)
+\* a signature by a non-zero key never verifies for another message (h2 = the ratio of the hashes), whichever of the
+\* two messages it was made over; the keys: every share of S, the group key, the sum of the shares (VerifyAggregate)
+RECURSIVE SumF(_, _)
+SumF(c, S) == IF S = {} THEN 0 ELSE LET i == CHOOSE x \in S : TRUE IN Mod(F(c, i) + SumF(c, S \ {i}))
+ReplayThm(S) == \A c \in Polys : \A h2 \in 2..(P - 1) :
+                  \A k \in {F(c, i) : i \in S} \cup {c[1], SumF(c, S)} :
+                     /\ Verify(k, 1, k) /\ Verify(k, h2, Mod(k * h2))
+                     /\ k # 0 => (~Verify(k, h2, k) /\ ~Verify(k, 1, Mod(k * h2)))
 \* the model's relations are the field's, coincidences aside
 Algebra == /\ obs.kind = "recover" => (RecoverThm(obs.S) /\ obs.secretEq /\ obs.pubEq)
            /\ obs.kind = "combine" => /\ CombineThm(obs.S, obs.sub)
                                       /\ obs.verifies = (obs.sub.kind = "none") /\ obs.aggEq = obs.verifies
-TypeOK == /\ phase \in {"new", "split", "rec", "done"}
+           /\ obs.kind = "replay" => /\ ReplayThm(obs.S)
+                                     /\ obs.genuine /\ obs.stillVerifies /\ ~obs.replayVerifies /\ ~obs.crossVerifies
+TypeOK == /\ phase \in {"new", "split", "rec", "done", "replayed"}
           /\ phase # "new" => (t >= 2 /\ n >= t)
-          /\ obs.kind \in {"none", "split", "recover", "combine"}
+          /\ obs.kind \in {"none", "split", "recover", "combine", "replay"}
 ====
